@@ -488,7 +488,7 @@ theorem step_cache (F : Nat → LId → Option VId → Bool) (w : World) (op : O
     · split
       · exact h
       · rename_i e; exact C.newLink_cache F w c _ hi h _ _ e
-  case newEdgeIllTyped => exact h
+  case rejected => exact h
   case newNLink vs =>
     split
     · exact h
